@@ -5,7 +5,7 @@ C18 decided: weight validation, the closed forms new_cum / new_wt_max / new_rho,
 (n, cumulative weight, maximum weight, smaller k), smaller-into-larger orientation, sample assembly.
 Not decided for either: conservation of total weight as arithmetic, unbiasedness / inclusion probabilities, the downsampling case
 analysis."""
-from astu import strip, strip_all, walk, walkp, txt, short, is_this_field, stmts_of, always_throws, functions_by, local_decls
+from astu import C, ctxt, gt_pair, eq_const, strip, strip_all, walk, walkp, txt, short, is_this_field, stmts_of, always_throws, functions_by, local_decls
 from vlib.core import ob
 
 
@@ -27,17 +27,15 @@ def _fn(fs, rec, name, pred=lambda f: True):
 
 
 def _weight_guard(fn, out, rule, key):
+    # canonical form (vlib/normalize.py): `if (bad weight) throw;` followed by `if (0 == weight) return;`
     st = stmts_of(fn["body"])
     first = st[0] if st else {}
+    second = st[1] if len(st) > 1 else {}
     c = txt(first.get("c")).replace(" ", "") if first.get("k") == "If" else ""
-    ok1 = first.get("k") == "If" and always_throws(first.get("t")) and "(weight<0" in c and "isnan(weight)" in c and "isinf(weight)" in c and "&&" not in c
-    el = first.get("e") if first.get("k") == "If" else None
-    ok2 = False
-    if el is not None:
-        e2 = el if el.get("k") == "If" else (stmts_of(el)[0] if stmts_of(el) else {})
-        ok2 = e2.get("k") == "If" and txt(e2["c"]).replace(" ", "") in ("(weight==0)", "(weight==0.0)") and stmts_of(e2["t"]) and stmts_of(e2["t"])[0].get("k") == "Return"
+    ok1 = first.get("k") == "If" and always_throws(first.get("t")) and C("(weight<0)") in c.replace("0.0", "0") and "isnan(weight)" in c and "isinf(weight)" in c and "&&" not in c
+    ok2 = second.get("k") == "If" and txt(second.get("c")).replace(" ", "").replace("0.0", "0") == C("(weight==0)") and stmts_of(second.get("t")) and stmts_of(second["t"])[0].get("k") == "Return"
     out.append(ob(rule, key + ":weight-validated-first", fn["pat"], "discharged" if ok1 and ok2 else "violated",
-                  "negative / NaN / infinite weights throw and zero weights return before any state changes" if ok1 and ok2 else "the update does not start with `if (weight < 0 || isnan(weight) || isinf(weight)) throw; else if (weight == 0) return` (found `%s`): an invalid weight reaches the totals / the sample" % c, fn["qname"]))
+                  "negative / NaN / infinite weights throw and zero weights return before any state changes" if ok1 and ok2 else "the update does not start with `if (weight < 0 || isnan(weight) || isinf(weight)) throw; if (weight == 0) return` (found `%s` / `%s`): an invalid weight reaches the totals / the sample" % (c, txt(second.get("c")) if second.get("k") == "If" else second.get("k")), fn["qname"]))
 
 
 def varopt(facts):
@@ -55,7 +53,7 @@ def varopt(facts):
     walk(fn["body"], lambda n: allinc.append(n) if (n.get("k") == "Un" and n.get("op") == "++" and is_this_field(n["e"], ("n_",))) or (n.get("k") == "Assign" and is_this_field(n["l"], ("n_",))) else None)
     out.append(ob("varopt.update", "var_opt_sketch::update:counts-once", fn["pat"], "discharged" if len(incs) == 1 and len(allinc) == 1 else "violated", "n_ is incremented exactly once, unconditionally, for every accepted item" if len(incs) == 1 and len(allinc) == 1 else "n_ is modified %d time(s), %d at top level: n must equal the number of accepted items" % (len(allinc), len(incs)), fn["qname"]))
     # dispatch
-    disp = [s for s in st if s.get("k") == "If" and txt(s["c"]).replace(" ", "") == "(r_==0)"]
+    disp = [s for s in st if s.get("k") == "If" and txt(s["c"]).replace(" ", "") == C("(r_==0)")]
     ok = False
     why = "no `if (r_ == 0) warm-up else estimation` dispatch"
     if disp:
@@ -80,7 +78,7 @@ def varopt(facts):
                                 chain.append(("else", _callnames(x2)[:1]))
                                 x2 = None
                         x = x2
-        want = [("(((h_==0)||(weight<=peek_min()))&&(weight<((weight+total_wt_r_)/((r_+1)-1))))", ["update_light"]), ("(r_==1)", ["update_heavy_r_eq1"]), ("else", ["update_heavy_general"])]
+        want = [(C("(((h_==0)||(weight<=peek_min()))&&(weight<((weight+total_wt_r_)/((r_+1)-1))))"), ["update_light"]), (C("(r_==1)"), ["update_heavy_r_eq1"]), ("else", ["update_heavy_general"])]
         ok = warm[:1] == ["update_warmup_phase"] and chain == want
         why = "dispatch is warm-up=%s, estimation=%s; expected light iff (h_ == 0 || weight <= peek_min()) && weight < (weight + total_wt_r_) / r_, else r_ == 1 ? heavy_r_eq1 : heavy_general" % (warm[:1], chain)
     out.append(ob("varopt.update", "var_opt_sketch::update:dispatch", fn["pat"], "discharged" if ok else "violated", "warm-up while r_ == 0; light iff the item is not heavier than the lightest H item and lighter than the hypothetical tau; otherwise heavy (r_ == 1 special-cased)" if ok else why, fn["qname"]))
@@ -88,7 +86,7 @@ def varopt(facts):
     fn2 = _fn(fs, R, "get_num_samples")
     if fn2 is not None:
         t2 = [_t(s) for s in stmts_of(fn2["body"])]
-        ok = t2 == ["num_in_sketch=(h_+r_)", "return ((num_in_sketch<k_)?num_in_sketch:k_)"]
+        ok = t2 in (["num_in_sketch=(h_+r_)", "return " + C("min(num_in_sketch,k_)")], ["return " + C("min((h_+r_),k_)")])
         out.append(ob("varopt.query", "var_opt_sketch::get_num_samples:formula", fn2["pat"], "discharged" if ok else "violated", "number of samples = min(h_ + r_, k_)" if ok else "get_num_samples is %s" % t2, fn2["qname"]))
     # iterator weights
     for cls, extra in (("datasketches::var_opt_sketch::const_iterator", False), ("datasketches::var_opt_sketch::iterator", True)):
@@ -114,9 +112,9 @@ def varopt(facts):
                     rest.append(("else", [_t(s) for s in stmts_of(y)]))
                     y = None
             if extra:
-                ok = c == "(idx_<sk_.h_)" and th == ["(wt=sk_.weights_[idx_])"] and rest == [("(idx_==(final_idx_-1))", ["(wt=(sk_.total_wt_r_-cum_r_weight_))"]), ("else", ["(wt=r_item_wt_)"])]
+                ok = c == C("(idx_<sk_.h_)") and th == ["(wt=sk_.weights_[idx_])"] and rest == [(C("(idx_==(final_idx_-1))"), ["(wt=(sk_.total_wt_r_-cum_r_weight_))"]), ("else", ["(wt=r_item_wt_)"])]
             else:
-                ok = c == "(idx_<sk_.h_)" and th == ["(wt=sk_.weights_[idx_])"] and rest == [("else", ["(wt=r_item_wt_)"])]
+                ok = c == C("(idx_<sk_.h_)") and th == ["(wt=sk_.weights_[idx_])"] and rest == [("else", ["(wt=r_item_wt_)"])]
         out.append(ob("varopt.query", "%s::operator*:weights" % short(cls), f["pat"], "discharged" if ok else "violated", "H items report their stored weight, R items the reservoir weight%s" % (" (the last R item takes the remainder so that the weights sum to total_wt_r_)" if extra else "") if ok else "iterator weight selection changed: %s" % ([_t(s) for s in stmts_of(f["body"])]), f["qname"]))
     # union accounting
     U = "datasketches::var_opt_union"
@@ -125,7 +123,7 @@ def varopt(facts):
         t = [_t(s) for s in st]
         form = "rvalue" if "&&" in f["params"][0]["t"] else "lvalue"
         adds = [x for x in t if x.startswith("(n_+=")]
-        ok = t[:1] == ["if(sketch.n_==0)"] and adds == ["(n_+=sketch.n_)"]
+        ok = t[:1] == ["if" + C("(sketch.n_==0)")] and adds == ["(n_+=sketch.n_)"]
         out.append(ob("varopt.union", "var_opt_union::merge_items(%s):n-accounting" % form, f["pat"], "discharged" if ok else "violated", "an empty input is a no-op; otherwise n_ += sketch.n_ exactly once" if ok else "union accounting of n is %s / first statement %s" % (adds, t[:1]), f["qname"]))
     # union: the running outer tau accumulates a reservoir only when its tau EQUALS the current outer tau
     rt = [g for g in fs.values() if g.get("rect") == U and g["name"] == "resolve_tau" and g.get("body") is not None]
@@ -190,13 +188,13 @@ def ebpps(facts):
             e = strip(st_["e"])
             if e.get("k") == "Assign" and e.get("op") == "=" and is_this_field(e["l"]):
                 stored[strip(e["l"])["f"]] = txt(e["r"], inl).replace(" ", "").replace("1.0", "1")
-    want = {"cumulative_wt_": "(cumulative_wt_+weight)", "wt_max_": "max(wt_max_,weight)", "rho_": "min((1/max(wt_max_,weight)),(k_/(cumulative_wt_+weight)))"}
+    want = {"cumulative_wt_": C("(cumulative_wt_+weight)"), "wt_max_": C("max(wt_max_,weight)"), "rho_": C("min((1/max(wt_max_,weight)),(k_/(cumulative_wt_+weight)))")}
     bad = {k: stored.get(k) for k, v in want.items() if stored.get(k) != v}
     out.append(ob("ebpps.update", "ebpps_sketch::internal_update:closed-forms", fn["pat"], "discharged" if not bad else "violated", "stored unconditionally: cumulative_wt_ + weight, max(wt_max_, weight), rho = min(1 / new wt_max, k_ / new cumulative weight)" if not bad else "the values stored at the end of the update are %s, expected %s" % (bad, {k: want[k] for k in bad}), fn["qname"]))
     ok = "++n_" in t or "n_++" in t
     out.append(ob("ebpps.update", "ebpps_sketch::internal_update:state-stored", fn["pat"], "discharged" if ok else "violated", "n_ is incremented unconditionally for every accepted item" if ok else "n_ is not incremented unconditionally at top level", fn["qname"]))
     repl = [txt(strip_all(s_["e"])["args"][1], inl).replace(" ", "").replace("1.0", "1") for s_ in stmts_of(fn["body"]) if s_.get("k") == "Expr" and strip_all(s_["e"]).get("k") == "Call" and strip_all(s_["e"]).get("cname") == "replace_content" and len(strip_all(s_["e"]).get("args", [])) == 2]
-    ok = "sample_.merge(tmp_)" in t and repl == ["(min((1/max(wt_max_,weight)),(k_/(cumulative_wt_+weight)))*weight)"] and any(x in ("if(cumulative_wt_>0.0)", "if(cumulative_wt_>0)") for x in t)
+    ok = "sample_.merge(tmp_)" in t and repl == [C("(min((1/max(wt_max_,weight)),(k_/(cumulative_wt_+weight)))*weight)")] and any(x.replace("0.0", "0") == "if" + C("(cumulative_wt_>0)") for x in t)
     out.append(ob("ebpps.update", "ebpps_sketch::internal_update:sample-step", fn["pat"], "discharged" if ok else "violated", "existing sample is down-sampled (when non-empty), the new item enters with probability mass new_rho * weight" if ok else "sample step changed: %s / %s" % (repl, t), fn["qname"]))
     fn = _fn(fs, R, "internal_merge")
     if fn is not None:
@@ -207,17 +205,17 @@ def ebpps(facts):
                 e = strip(st_["e"])
                 if e.get("k") == "Assign" and e.get("op") == "=" and is_this_field(e["l"]):
                     last[strip(e["l"])["f"]] = txt(e["r"], inl).replace(" ", "")
-        need = {"cumulative_wt_": "(cumulative_wt_+sk.cumulative_wt_)", "wt_max_": "max(wt_max_,sk.wt_max_)", "n_": "(n_+sk.n_)", "k_": "min(k_,sk.k_)"}
+        need = {"cumulative_wt_": C("(cumulative_wt_+sk.cumulative_wt_)"), "wt_max_": C("max(wt_max_,sk.wt_max_)"), "n_": C("(n_+sk.n_)"), "k_": C("min(k_,sk.k_)")}
         missing = ["%s (stored: %s)" % (k, last.get(k)) for k, v in need.items() if last.get(k) != v]
         out.append(ob("ebpps.merge", "ebpps_sketch::internal_merge:accounting", fn["pat"], "discharged" if not missing else "violated", "merge stores n_ + other.n_, the summed cumulative weight, the larger maximum weight and the smaller k" if not missing else "merge does not finally store the expected value of %s: c = min(k, cumulative weight / maximum weight) no longer holds after the merge" % ", ".join(missing), fn["qname"]))
     for f in [g for g in fs.values() if g.get("rect") == R and g["name"] == "merge" and g.get("body") is not None]:
         form = "rvalue" if "&&" in f["params"][0]["t"] else "lvalue"
         st = stmts_of(f["body"])
         first = st[0] if st else {}
-        ok = first.get("k") == "If" and txt(first["c"]).replace(" ", "") in ("(sk.get_cumulative_weight()==0.0)", "(sk.get_cumulative_weight()==0)")
-        el = first.get("e") if first.get("k") == "If" else None
-        c2 = txt(el["c"]).replace(" ", "") if el is not None and el.get("k") == "If" else ""
-        ok = ok and c2 == "(sk.get_cumulative_weight()>get_cumulative_weight())" and "swap" in _callnames(el.get("t"))
+        ok = first.get("k") == "If" and txt(first["c"]).replace(" ", "").replace("0.0", "0") == C("(sk.get_cumulative_weight()==0)") and stmts_of(first.get("t")) and stmts_of(first["t"])[0].get("k") == "Return"
+        swaps = [x for x in st[1:] if x.get("k") == "If" and "swap" in _callnames(x.get("t"))]
+        c2 = txt(swaps[0]["c"]).replace(" ", "") if swaps else ""
+        ok = ok and c2 == C("(sk.get_cumulative_weight()>get_cumulative_weight())")
         out.append(ob("ebpps.merge", "ebpps_sketch::merge(%s):orientation" % form, f["pat"], "discharged" if ok else "violated", "an input without weight is a no-op; the lighter sketch is always replayed into the heavier one (swap when the input is heavier)" if ok else "merge orientation changed (`%s`): replaying the heavier sketch into the lighter one gives items a contribution to c above 1" % c2, f["qname"]))
     # every down-sampling step by new_rho / rho_ is followed, in the same block, by rho_ = new_rho (the ratio of the NEXT step
     # is taken against the rho that was actually applied)
@@ -263,6 +261,6 @@ def ebpps(facts):
     if fn is not None:
         t = [_t(s) for s in stmts_of(fn["body"])]
         ok = any("result_size=(data_.size()+(include_partial?1:0))" in x.replace("static_cast<uint32_t>", "") or "result_size=" in x and "include_partial?1:0" in x for x in t) and any(x.startswith("copy(data_.begin(),data_.end(),back_inserter(result))") for x in t) and "if include_partial" in [x.replace("if", "if ") for x in t] + t or any(x == "ifinclude_partial" for x in t)
-        ok = ok and any("include_partial=(next_double()<c_frac)" in x for x in t)
+        ok = ok and any(("include_partial=" + C("(next_double()<c_frac)")) in x for x in t)
         out.append(ob("ebpps.sample", "ebpps_sample::get_sample:assembly", fn["pat"], "discharged" if ok else "violated", "the sample is every full item plus the partial item with probability frac(c): floor(c) or ceil(c) items, all from the input" if ok else "sample assembly changed: %s" % t, fn["qname"]))
     return out
